@@ -30,3 +30,13 @@ CHECKS.update({
     note='Trusted: harness/positions.py; message formats parsed as the library prints them. Termination judged by a 20 s / 60 s watchdog.',
     technique='fuzzing-style robustness testing: Hypothesis text/corruption generators + exhaustive short-string enumeration; exception-type and message-position oracle'),
 })
+CHECKS.update({
+ 'C01': dict(
+    text='Round trip and fixpoint over grammar-derived programs in four layout regimes and the repository snippets, with Hypothesis-drawn indentation strings (spaces, tabs, mixed, empty): the pretty output is re-parsed by calmjs and by the independent reference parser, trees compared structurally, and printed again for byte equality.',
+    note=R1NOTE + ' Sources on which calmjs and the reference parser already disagree are counted and left to C03.',
+    technique='round-trip + differential property-based testing (Hypothesis, grammar-based generator)'),
+ 'C02': dict(
+    text='Round trip of minified output (drop_semi off/on) through calmjs and the reference parser with the two normalisations the statement grants, plus a token-level no-fusion comparison of reference token streams, over grammar-derived programs, the repository snippets and an enumerated adjacency product of slot templates x operand classes (every 12th case per quick run, all in the thorough tier).',
+    note=R1NOTE + ' Sources on which calmjs and the reference parser already disagree are counted and left to C03.',
+    technique='round-trip + differential property-based testing with exhaustive adjacency-product enumeration'),
+})
